@@ -22,7 +22,7 @@ def snake(s):
 # ------------------------------------------------------------------ APIs
 SHAPES = ["scalars", "enums", "nested", "toplevel_msg", "oneof_toplevel_msg", "deep_toplevel", "repeated_msg", "map_required",
           "msg_no_required", "oneof_msg_no_required", "same_type_twice", "same_type_single_repeated", "same_type_oneof_required",
-          "same_type_two_paths", "oneof_scalar", "oneof_msg", "oneof_enum", "repeated_scalar", "repeated_enum",
+          "same_type_two_paths", "dotted_sig", "oneof_scalar", "oneof_msg", "oneof_enum", "repeated_scalar", "repeated_enum",
           "resource_ref", "wkt", "bytes", "deep", "optional", "two_oneofs", "required_in_oneof"]
 FORMS = ["unary", "paged", "lro", "server_stream", "client_stream", "bidi", "void"]
 
@@ -98,6 +98,11 @@ def add_shape(api, f, req, shape, n, r):
         ri = f.message(f"{req.proto.name}Right"); ri.field("stamp", 1, st.fqn, required=True).field("seal", 2, "bool", required=True)
         req.field("left", n, le.fqn, required=True); n += 1
         req.field("right", n, ri.fqn, required=True); n += 1
+    elif shape == "dotted_sig":                 # method_signature entries naming NESTED fields, one with a reserved-word leaf
+        bk = f.message(f"{req.proto.name}Book")
+        bk.field("title", 1, "string", required=True).field("format", 2, "string").field("pages", 3, "int32")
+        req.field("book", n, bk.fqn, required=True); n += 1
+        req._dotted = getattr(req, "_dotted", []) + ["book.title", "book.format"]
     elif shape == "deep":
         a = req.nested("Outer"); b = a.nested("Inner"); c = b.nested("Core")
         c.field("id", 1, "string", required=True)
@@ -182,14 +187,16 @@ def sample_api(r, forms=None, shapes=None, pkgidx=None, transport="grpc", other_
             n = add_shape(api, f, req, sh, n, r)
         k += 1
         inp = req.fqn
+        first = "parent" if form == "paged" else "name"
+        dotted = [f"{first}," + ",".join(getattr(req, "_dotted", []))] if getattr(req, "_dotted", None) else []
         if other_package and form == "unary":
             inp = "." + info["other_package"] + ".SharedRequest"
         if form == "unary":
-            svc.rpc(rpc, inp, item.fqn, http=("post", "/v1/{name=items/*}:get"), body="*", sigs=["name"])
+            svc.rpc(rpc, inp, item.fqn, http=("post", "/v1/{name=items/*}:get"), body="*", sigs=["name"] + dotted)
         elif form == "paged":
             resp = f.message(f"{rpc}Response")
             resp.field("items", 1, item.fqn, repeated=True).field("next_page_token", 2, "string")
-            svc.rpc(rpc, inp, resp.fqn, http=("post", "/v1/{parent=shelves/*}/items:list"), body="*", sigs=["parent"])
+            svc.rpc(rpc, inp, resp.fqn, http=("post", "/v1/{parent=shelves/*}/items:list"), body="*", sigs=["parent"] + dotted)
         elif form == "lro":
             f.dep("google/longrunning/operations.proto")
             rm = f.message(f"{rpc}Response"); rm.field("imported", 1, "int32")
@@ -197,16 +204,16 @@ def sample_api(r, forms=None, shapes=None, pkgidx=None, transport="grpc", other_
             # two signatures: the flattened parameters are their union, in order
             second = next((x.name for x in req.proto.field[1:] if not x.HasField("oneof_index")), None)
             svc.rpc(rpc, inp, OPERATION, http=("post", "/v1/{name=items/*}:import"), body="*", lro=(rm.proto.name, mm.proto.name),
-                    sigs=["name"] + ([f"name,{second}"] if second else []))
+                    sigs=["name"] + ([f"name,{second}"] if second else []) + dotted)
         elif form == "void":
             f.dep("google/protobuf/empty.proto")
-            svc.rpc(rpc, inp, EMPTY, http=("post", "/v1/{name=items/*}:delete"), body="*", sigs=["name"])
+            svc.rpc(rpc, inp, EMPTY, http=("post", "/v1/{name=items/*}:delete"), body="*", sigs=["name"] + dotted)
         else:
             resp = f.message(f"{rpc}Response"); resp.field("chunk", 1, "bytes").field("seq", 2, "int64")
             cs, ss = {"server_stream": (False, True), "client_stream": (True, False), "bidi": (True, True)}[form]
             svc.rpc(rpc, inp, resp.fqn, cs=cs, ss=ss,
                     http=("post", "/v1/{name=items/*}:watch") if form == "server_stream" else None, body="*" if form == "server_stream" else None,
-                    sigs=["name"] if form == "server_stream" else [])
+                    sigs=(["name"] + dotted) if form == "server_stream" else [])
         info["services"]["Catalog"].append(rpc)
         info["forms"][rpc] = form
     if keyword_rpc:
